@@ -155,6 +155,123 @@ theorem sort_emits_sorted_tick_input (h : List Stream) :
   rw [aux_stateless _ _ (by intro t st ins; simp [opSem]; rfl)]
   simp [inp]
 
+/-! ### `Val.le` is the total order `sort` / `sort_by_key` need (review addition: the generic
+    `sort_output_sorted_perm` is instantiated, not left with open hypotheses) -/
+
+theorem aux_cmp_refl (a : Val) : Val.cmp a a = .eq := by
+  induction a with
+  | num n => simp [Val.cmp]
+  | unit => rfl
+  | pair a b iha ihb => simp [Val.cmp, iha, ihb]
+
+theorem aux_cmp_swap (a b : Val) : (Val.cmp a b).swap = Val.cmp b a := by
+  induction a generalizing b with
+  | num n => cases b <;> simp [Val.cmp, Nat.compare_swap]
+  | unit => cases b <;> simp [Val.cmp]
+  | pair a1 a2 ih1 ih2 =>
+    cases b with
+    | num m => simp [Val.cmp]
+    | unit => simp [Val.cmp]
+    | pair b1 b2 =>
+      simp only [Val.cmp]
+      rw [← ih1 b1, ← ih2 b2]
+      cases Val.cmp a1 b1 <;> simp
+
+theorem aux_cmp_eq (a b : Val) (h : Val.cmp a b = .eq) : a = b := by
+  induction a generalizing b with
+  | num n =>
+    cases b <;> simp [Val.cmp] at h
+    exact congrArg Val.num h
+  | unit => cases b <;> simp [Val.cmp] at h; rfl
+  | pair a1 a2 ih1 ih2 =>
+    cases b with
+    | num m => simp [Val.cmp] at h
+    | unit => simp [Val.cmp] at h
+    | pair b1 b2 =>
+      simp only [Val.cmp] at h
+      cases h1 : Val.cmp a1 b1 <;> simp [h1] at h
+      rw [ih1 b1 h1, ih2 b2 h]
+
+theorem aux_cmp_lt_trans (a b c : Val) (h1 : Val.cmp a b = .lt) (h2 : Val.cmp b c = .lt) : Val.cmp a c = .lt := by
+  induction a generalizing b c with
+  | num n =>
+    cases b <;> cases c <;> simp [Val.cmp] at h1 h2 ⊢
+    rw [Nat.compare_eq_lt] at h1 h2 ⊢; omega
+  | unit => cases b <;> cases c <;> simp [Val.cmp] at h1 h2 ⊢
+  | pair a1 a2 ih1 ih2 =>
+    cases b with
+    | num m => simp [Val.cmp] at h1
+    | unit => simp [Val.cmp] at h1
+    | pair b1 b2 =>
+      cases c with
+      | num m => simp [Val.cmp] at h2
+      | unit => simp [Val.cmp] at h2
+      | pair c1 c2 =>
+        simp only [Val.cmp] at h1 h2 ⊢
+        cases e1 : Val.cmp a1 b1 <;> simp [e1] at h1 <;>
+        cases e2 : Val.cmp b1 c1 <;> simp [e2] at h2
+        · simp [ih1 b1 c1 e1 e2]
+        · have := aux_cmp_eq _ _ e2; subst this; simp [e1]
+        · have := aux_cmp_eq _ _ e1; subst this; simp [e2]
+        · have := aux_cmp_eq _ _ e1; subst this
+          have := aux_cmp_eq _ _ e2; subst this
+          simp [aux_cmp_refl, ih2 b2 c2 h1 h2]
+
+theorem aux_le_iff (a b : Val) : Val.le a b = true ↔ (Val.cmp a b = .lt ∨ a = b) := by
+  unfold Val.le Val.lt
+  rw [← aux_cmp_swap a b]
+  constructor
+  · intro h
+    cases e : Val.cmp a b
+    · exact Or.inl rfl
+    · exact Or.inr (aux_cmp_eq _ _ e)
+    · simp [e] at h
+  · rintro (h | h)
+    · simp [h]
+    · subst h; simp [aux_cmp_refl]
+
+/-- `Val.le` (Rust `Ord` on the sortable item types) is a total order -/
+theorem valLe_total_transitive :
+    (∀ a b, Val.le a b = true ∨ Val.le b a = true) ∧
+    (∀ a b c, Val.le a b = true → Val.le b c = true → Val.le a c = true) := by
+  constructor
+  · intro a b
+    rw [aux_le_iff, aux_le_iff]
+    cases e : Val.cmp a b
+    · exact Or.inl (Or.inl rfl)
+    · exact Or.inl (Or.inr (aux_cmp_eq _ _ e))
+    · right; left; rw [← aux_cmp_swap, e]; rfl
+  · intro a b c
+    rw [aux_le_iff, aux_le_iff, aux_le_iff]
+    rintro (h1 | h1) (h2 | h2)
+    · exact Or.inl (aux_cmp_lt_trans a b c h1 h2)
+    · subst h2; exact Or.inl h1
+    · subst h1; exact Or.inl h2
+    · subst h1; exact Or.inr h2
+
+/-- `sort()`: every tick's output is the tick's input, permuted, in ascending `Ord` order -/
+theorem sort_is_sorted_permutation_each_tick (h : List Stream) :
+    runOp .sort (un h) = (h.map fun x => [sortBy Val.le x]) ∧
+    ∀ x : Stream, (sortBy Val.le x).Perm x ∧ (sortBy Val.le x).Pairwise (fun a b => Val.le a b = true) :=
+  ⟨sort_emits_sorted_tick_input h,
+   fun x => sort_output_sorted_perm Val.le valLe_total_transitive.1 valLe_total_transitive.2 x⟩
+
+/-- `sort_by_key(k)`: every tick's output is the tick's input, permuted, ascending in the key
+    (items with equal keys in unspecified relative order: the code uses `sort_unstable_by_key`,
+    the harness compares such sinks as multisets) -/
+theorem sortByKey_is_sorted_permutation_each_tick (k : KeyFn) (h : List Stream) :
+    runOp (.sortByKey k) (un h) = (h.map fun x => [sortBy (fun a b => Val.le (k.app a) (k.app b)) x]) ∧
+    ∀ x : Stream, (sortBy (fun a b => Val.le (k.app a) (k.app b)) x).Perm x ∧
+      (sortBy (fun a b => Val.le (k.app a) (k.app b)) x).Pairwise (fun a b => Val.le (k.app a) (k.app b) = true) := by
+  refine ⟨?_, fun x => sort_output_sorted_perm (fun a b => Val.le (k.app a) (k.app b))
+    (fun a b => valLe_total_transitive.1 (k.app a) (k.app b))
+    (fun a b c => valLe_total_transitive.2 (k.app a) (k.app b) (k.app c)) x⟩
+  unfold runOp un
+  rw [aux_stateless _ _ (by intro t st ins; simp [opSem]; rfl)]
+  simp [inp]
+
+example : sortBy Val.le [.num 3, .num 1, .num 2] = [.num 1, .num 2, .num 3] := by decide
+
 /-! ### persist, fold, reduce, enumerate -/
 
 /-- `persist::<'static>()` replays everything seen so far, every tick -/
@@ -831,6 +948,37 @@ theorem foldKeyed_entry_is_fold_of_key_values (f : AccFn) (tbl x : List Val) (k 
     · have hb : (keyOf kv == k) = false := by simpa using hk
       have hk2 : ¬ k = keyOf kv := fun h => hk h.symm
       simp only [List.filter_cons, hb, Bool.false_eq_true, if_false, hstep, hk2]
+
+/-- `reduce_keyed`: the entry of every key is the reduction of that key's values in arrival
+    order, seeded by the first value (or continuing from the persisted entry); keys without a
+    value keep their entry -/
+theorem reduceKeyed_entry_is_reduce_of_key_values (f : AccFn) (tbl x : List Val) (k : Val) :
+    tblGet (x.foldl (reduceKeyedStep f) tbl) k =
+      reduceOpt f (tblGet tbl k) ((x.filter fun kv => keyOf kv == k).map Val.snd) := by
+  induction x generalizing tbl with
+  | nil => cases h : tblGet tbl k <;> simp [reduceOpt, h]
+  | cons kv kvs ih =>
+    rw [List.foldl_cons, ih]
+    by_cases hk : keyOf kv = k
+    · have hb : (keyOf kv == k) = true := by simpa using hk
+      subst hk
+      simp only [List.filter_cons, hb, if_true, List.map_cons]
+      have hstep : tblGet (reduceKeyedStep f tbl kv) (keyOf kv) =
+          some (match tblGet tbl (keyOf kv) with | none => kv.snd | some o => f.app o kv.snd) := by
+        unfold reduceKeyedStep
+        have e : kv.fst = keyOf kv := rfl
+        rw [e]
+        cases h : tblGet tbl (keyOf kv) <;> simp [aux_tblGet_tblSet]
+      rw [hstep]
+      cases h : tblGet tbl (keyOf kv) <;> simp [reduceOpt]
+    · have hb : (keyOf kv == k) = false := by simpa using hk
+      have hk2 : ¬ k = keyOf kv := fun h => hk h.symm
+      simp only [List.filter_cons, hb, Bool.false_eq_true, if_false]
+      congr 1
+      unfold reduceKeyedStep
+      have e : kv.fst = keyOf kv := rfl
+      rw [e]
+      cases h : tblGet tbl (keyOf kv) <;> simp [aux_tblGet_tblSet, hk2]
 
 /-- `cross_singleton`: pairs every input item with the first singleton item (of the tick, or the
     first ever under `'static`); without one, nothing is emitted -/
